@@ -221,6 +221,13 @@ Fixpoint c05_clauses (cfg : config) (c : chk) (s : state) (l : list (op * obs)) 
                 | OVotes _ | OEvidence _ | OUpPause _ =>
                     (* a BeginBlocker that panics stops the chain as surely as an unusable update *)
                     match o_res b with RPanic => ["blocker-panic:" ++ op_label o] | _ => [] end
+                | OPause _ =>
+                    (* the stated mechanism: a pause is refused when it would leave too few validators --
+                       the code's documented guard is "more validators than max(MinValidators, 1)" *)
+                    match o_res b with
+                    | ROk => let n := Z.of_nat (List.length (st_vals s)) in
+                             if ((n <=? c_minvals cfg) || (n <=? 1))%Z then ["pause-guard:accepted-with-too-few-validators"] else []
+                    | _ => [] end
                 | OEndBlock => end_block_clauses c s s' b
                 | OGenesis _ => (* the InitChain response is the whole new consensus set *)
                     match o_res b with
